@@ -5,7 +5,7 @@ from mc.core.util import diff, exc_name
 
 ID = "C02"
 LEVEL = "model_checking"
-REQUIRED_OUTCOMES = ["cycle:ok", "reloaded-start:ok", "has:alias", "has:unified", "has:big-size", "has:3-in-cell",
+REQUIRED_OUTCOMES = ["cycle:ok", "reloaded-start:ok", "edit-after-write:ok", "has:alias", "has:unified", "has:big-size", "has:3-in-cell",
                      "has:null-volume-id", "has:multi-checksum"]
 
 
@@ -71,6 +71,15 @@ def eval_case(case):
     try:
         if case["mode"] == "scratch":
             obj = B.build(spec)
+        elif case["mode"] == "live":
+            # the parent state is built AND WRITTEN, then the last edit is made on that same live object: whatever the first
+            # write left behind in the object (caches, a stamped header, sorted copies) must not show in the second file
+            parent = spec_of({"seed": case["seed"], "edits": case["edits"][:-1]})
+            obj = B.build(parent)
+            obj.dumps()
+            obj.validate()
+            str(obj.header.version_tuple)
+            B.apply_obj(obj, case["edits"][-1], parent)
         else:
             parent = spec_of({"seed": case["seed"], "edits": case["edits"][:-1]})
             obj = pi.Images()
@@ -104,14 +113,14 @@ def run_unit(unit, acc):
     u, tier, seed = unit
 
     def visit(spec, trace, parent, last):
-        for mode in ("scratch", "reloaded"):
-            if mode == "reloaded" and last is None:
+        for mode in ("scratch", "reloaded", "live"):
+            if mode != "scratch" and last is None:
                 continue
             case = {"seed": trace[0], "edits": trace[1:], "mode": mode}
             o = eval_case(case)
             acc.ev()
             acc.trace()
-            tag = "cycle" if mode == "scratch" else "reloaded-start"
+            tag = {"scratch": "cycle", "reloaded": "reloaded-start", "live": "edit-after-write"}[mode]
             if o["status"] == "refused":
                 acc.outcome(tag + ":refused")
                 continue
